@@ -13,8 +13,8 @@ from ..observe import AsyncRecorder, Recorder, run_async, run_sync
 
 ID = "C08"
 LEVEL = "exploration"
-BUDGET = {"quick": 5000, "thorough": 48000}
-SHARDS = {"quick": 8, "thorough": 16}
+BUDGET = {"quick": 10000, "thorough": 48000}
+SHARDS = {"quick": 16, "thorough": 16}
 RULE = (
     "Hypothesis-generated graphs: gate-free DAGs, control-flow programs (gates, data cycles, signals), structured loops (flat and "
     "nested in a graph node) and DAGs with a nested interval, each under a drawn configuration (bind subset, unbind, select subset, "
